@@ -195,11 +195,25 @@ fn random_forms(src: &mut Src, obs: &mut Obs) -> Res {
             (Arg::Lit(lit), elems)
         }
     };
-    let doc = J::Obj(vec![("e".into(), J::Arr(elems)), ("l".into(), list)]).sorted();
-    let f = Func { name: fname.into(), args: vec![aarg, Arg::Q(Query { abs: true, segs: vec![nseg("l")] })] };
+    // the list argument: the singular query `$.lst`, or a query of another shape (descendant, wildcard,
+    // slice, union, filter) that selects exactly that one node, or no node at all (argument missing)
+    let doc = J::Obj(vec![("e".into(), J::Arr(elems)), ("lst".into(), list.clone()), ("w".into(), J::Arr(vec![list]))]).sorted();
+    let seg = |sels: Vec<Sel>, desc: bool| Seg { desc, sels, dot: false };
+    let lform = src.weighted(&[40, 10, 10, 10, 10, 10, 10]);
+    let lsegs: Vec<Seg> = match lform {
+        0 => vec![nseg("lst")],
+        1 => vec![seg(vec![Sel::Name(nm("lst"))], true)],
+        2 => vec![nseg("w"), seg(vec![Sel::Wild], false)],
+        3 => vec![nseg("w"), seg(vec![Sel::Slice(Some(0), Some(1), None, false)], false)],
+        4 => vec![seg(vec![Sel::Name(nm("lst")), Sel::Name(nm("absent"))], false)],
+        5 => vec![nseg("w"), seg(vec![Sel::Filter(Expr::Cmp(Box::new(Cmpable::Sing(Sing { abs: false, steps: vec![] })), Op::Eq, Box::new(Cmpable::Sing(Sing { abs: true, steps: vec![SingStep::Name(nm("lst"), true)] }))))], false)],
+        _ => vec![nseg("w"), seg(vec![Sel::Slice(Some(1), None, None, false)], false)],
+    };
+    let f = Func { name: fname.into(), args: vec![aarg, Arg::Q(Query { abs: true, segs: lsegs })] };
     let e = Expr::Test(src.chance(1, 4), Box::new(TestE::F(f)));
     let q = Query { abs: true, segs: vec![nseg("e"), Seg { desc: false, sels: vec![Sel::Filter(e)], dot: false }] };
     obs.label(["first-arg-@", "first-arg-@[0]", "first-arg-literal", "first-arg-@[-1]"][form]);
+    obs.label(["list-arg-$.lst", "list-arg-$..lst", "list-arg-$.w[*]", "list-arg-$.w[0:1]", "list-arg-union-with-absent", "list-arg-filter", "list-arg-selects-nothing"][lform]);
     check(&q, &doc, obs)
 }
 
